@@ -351,13 +351,13 @@ Qed.
 Theorem close_while_sim : close_while_sim_stmt.
 Proof.
   intros V d rb dv r Hn Hsim Hex Hfin E.
-  unfold close_while in E. cbv zeta in E.
-  destruct (rel_fixpoint fix_fuel (rel_comp rel_empty (cr_rel rb))) as [fx|] eqn:Efx; [|discriminate].
+  unfold close_while in E. cbv zeta in E. revert E. generalize fix_fuel. intros fuel E.
+  destruct (rel_fixpoint fuel (rel_comp rel_empty (cr_rel rb))) as [fx|] eqn:Efx; [|discriminate].
   destruct (while_correction fx) as [rw rec] eqn:Ew.
   destruct (dg_insert_all (cr_dg rb) rec) as [d1|] eqn:E1; cbn [rbind] in E; [|discriminate].
   destruct (dg_fusion d1) as [d2|] eqn:E2; cbn [rbind] in E; [|discriminate].
   injection E as <-.
-  exact (close_while_core V d rb dv fix_fuel fx rw rec d1 d2 Hn Hsim Hex Hfin Efx Ew E1 E2).
+  exact (close_while_core V d rb dv fuel fx rw rec d1 d2 Hn Hsim Hex Hfin Efx Ew E1 E2).
 Qed.
 
 (* ------------------------------------------------------------------ *)
@@ -461,13 +461,13 @@ Qed.
 Theorem close_for_sim : close_for_sim_stmt.
 Proof.
   intros V d rb dv x r Hn Hsim Hex Hfin HxV Hxnb E.
-  unfold close_for in E. cbv zeta in E.
-  destruct (rel_fixpoint fix_fuel (rel_comp (rel_zero [x]) (cr_rel rb))) as [fx|] eqn:Efx; [|discriminate].
+  unfold close_for in E. cbv zeta in E. revert E. generalize fix_fuel. intros fuel E.
+  destruct (rel_fixpoint fuel (rel_comp (rel_zero [x]) (cr_rel rb))) as [fx|] eqn:Efx; [|discriminate].
   destruct (loop_correction fx x) as [[rl rec]|] eqn:El; [|discriminate].
   destruct (dg_insert_all (cr_dg rb) rec) as [d1|] eqn:E1; cbn [rbind] in E; [|discriminate].
   destruct (dg_fusion d1) as [d2|] eqn:E2; cbn [rbind] in E; [|discriminate].
   injection E as <-.
-  exact (close_for_core V d rb dv x fix_fuel fx rl rec d1 d2 Hn Hsim Hex Hfin HxV Hxnb Efx El E1 E2).
+  exact (close_for_core V d rb dv x fuel fx rl rec d1 d2 Hn Hsim Hex Hfin HxV Hxnb Efx El E1 E2).
 Qed.
 
 Print Assumptions close_while_sim.
